@@ -221,3 +221,14 @@ reg("C12",
     partial_clauses=["that the serial and the parallel numba kernel variants, FFTW's planner (wisdom file, plan cache, thread count) and numba's thread scheduling "
                      "give bit-identical / 1e-12-equal numbers, and that single precision differs by 1e-5: OBSERVED by the oracle on histories, not proved"],
     assumptions=["the process-global state reachable from a solve is the extracted table (global_state_table)"])
+
+reg("C14",
+    T("Proofs.C14", "BLDFM.C14", ["fold_slots", "poolMap_eq_map", "regroup_flatten", "worker_state_irrelevant", "timeseries_eq_singles",
+                                  "multitower_eq_singles", "parallel_both_eq_multitower", "parallel_eq_serial", "invalid_strategy_rejected"])
+    + T("Proofs.C12", "BLDFM.C12", ["worker_reset_canonical", "worker_solve_eq_fresh"])
+    + T("Proofs.C15", "BLDFM.C15", ["cache_transparent"]),
+    kernel_groups=[],
+    partial_clauses=["OS process scheduling, fork/pickle fidelity of the results: exercised by the oracle with injected delays, not proved",
+                     "Executor.map returns results in submission order and runs each task once (documented contract, trusted)",
+                     "surface_flux is documented as ignored by the parallel driver; the statement is read for surface_flux=None"],
+    assumptions=["tower names distinct (a dict cannot hold two towers with one name)", "every task completes under the schedule"])
